@@ -27,6 +27,7 @@ pub static HOSTILE_CRC: hostile::Hostile = hostile::Hostile { crc: true };
 pub static FOREIGN: foreign::Foreign = foreign::Foreign { z64: false };
 pub static FOREIGN_Z64: foreign::Foreign = foreign::Foreign { z64: true };
 pub static STREAM: stream::Stream = stream::Stream;
+pub static STREAM_HUGE: stream::StreamHuge = stream::StreamHuge;
 pub static EXTRACT: extract::Extract = extract::Extract;
 pub static CLONES: clones::Clones = clones::Clones;
 pub static CLONES_SHUTTLE: clones::ClonesShuttle = clones::ClonesShuttle;
@@ -37,7 +38,7 @@ pub static AES: crypt::AesSc = crypt::AesSc;
 pub static ZIPCRYPTO: crypt::ZipCryptoSc = crypt::ZipCryptoSc;
 
 pub fn all() -> Vec<&'static dyn Scenario> {
-    vec![&ROUNDTRIP, &ROUNDTRIP_FULL, &STATEMACHINE, &APPEND, &RAWCOPY, &ALIGN, &ZIP64, &CHUNKING, &IOFAULT, &HOSTILE, &HOSTILE_CRC, &BITROT, &AES, &ZIPCRYPTO, &FOREIGN, &FOREIGN_Z64, &STREAM, &EXTRACT, &CLONES, &CLONES_SHUTTLE, &PYJUDGE, &PYPRODUCER]
+    vec![&ROUNDTRIP, &ROUNDTRIP_FULL, &STATEMACHINE, &APPEND, &RAWCOPY, &ALIGN, &ZIP64, &CHUNKING, &IOFAULT, &HOSTILE, &HOSTILE_CRC, &BITROT, &AES, &ZIPCRYPTO, &FOREIGN, &FOREIGN_Z64, &STREAM, &STREAM_HUGE, &EXTRACT, &CLONES, &CLONES_SHUTTLE, &PYJUDGE, &PYPRODUCER]
 }
 
 pub fn lookup(name: &str) -> Option<&'static dyn Scenario> {
@@ -64,7 +65,7 @@ pub fn props() -> Vec<PropCfg> {
         PropCfg { id: "C07", level: "exploration", scenarios: vec![&EXTRACT], assumptions: vec!["the sink is the real kernel file system, confined to a fresh sandbox under /verif/target/sandbox whose whole tree outside the target is snapshotted (path, type, size, mode, mtime, content hash) before and after", "generated '..' chains are at most 14 long and absolute names point into the sandbox's canary directory, so even a real escape cannot leave the sandbox", "host path semantics are Unix", A_CODEC] },
         PropCfg { id: "C08", level: "exploration", scenarios: vec![&ZIP64, &FOREIGN_Z64], assumptions: vec![A_MODEL, A_CODEC, "sizes and offsets beyond 2^32 are realised on a sparse simulated disk (zero pages are not stored); huge payloads are zeros with marker bytes every 64 MiB and at the end"] },
         PropCfg { id: "C09", level: "exploration", scenarios: vec![&CHUNKING], assumptions: vec![A_CODEC, "the unfragmented (Pure policy) execution is the reference outcome"] },
-        PropCfg { id: "C10", level: "exploration", scenarios: vec![&STREAM], assumptions: vec![A_CODEC, "the seekable reader on the same bytes is the reference (its fidelity is C01/C03's job)"] },
+        PropCfg { id: "C10", level: "exploration", scenarios: vec![&STREAM, &STREAM_HUGE], assumptions: vec![A_CODEC, "the seekable reader on the same bytes is the reference (its fidelity is C01/C03's job)", "entries on the 32-bit size limit, archives starting around 4 GiB and more than 65535 entries are realised on the sparse simulated disk (stream_huge)"] },
         PropCfg { id: "C11", level: "fault_enumeration", scenarios: vec![&IOFAULT], assumptions: vec![A_CODEC, "'identical to the failure-free run' is judged on entries/metadata/contents/comment, not on bytes (R7)", "programs end with an explicit finish(), so that no error is swallowed by Drop"] },
         PropCfg { id: "C12", level: "exploration", scenarios: vec![&STATEMACHINE], assumptions: vec![A_MODEL, A_CODEC, "after a failed state-changing call the model only constrains what the property states (R6)"] },
         PropCfg { id: "C13", level: "exploration", scenarios: vec![&APPEND, &PYPRODUCER], assumptions: vec![A_MODEL, A_CODEC, "the crate's own reading of a foreign base archive is the reference for 'unchanged' (reader fidelity is C03's job)"] },
